@@ -18,14 +18,14 @@ import (
 type Kind int
 
 const (
-	TEOF Kind = iota
-	TIdent     // x, struct.t, Var', λ
-	TKeyword   // let: rec: if: for: λ: (notation keywords ending in ':')
-	TString    // "…" (value has "" unescaped)
-	TNumber    // 123
-	TSym       // punctuation / operators
-	TDot       // sentence terminator
-	TComment   // only produced when KeepComments
+	TEOF     Kind = iota
+	TIdent        // x, struct.t, Var', λ
+	TKeyword      // let: rec: if: for: λ: (notation keywords ending in ':')
+	TString       // "…" (value has "" unescaped)
+	TNumber       // 123
+	TSym          // punctuation / operators
+	TDot          // sentence terminator
+	TComment      // only produced when KeepComments
 )
 
 // Token is one lexical token.
